@@ -96,6 +96,8 @@ func runGroup(c groupCase) groupResult {
 		mu.Unlock()
 	}
 	var outerDone atomic.Int32 // outer sections committed
+	endNow := make([]atomic.Bool, len(c.fates))
+	windows := 0
 	store := &countedLeaf{name: "server.store", val: tla.MakeNumber(0), old: tla.MakeNumber(0)}
 	leaves := []*countedLeaf{store}
 	started := make(chan struct{}, 8)
@@ -168,7 +170,7 @@ func runGroup(c groupCase) groupResult {
 				if err := iface.Write(cell, nil, tla.MakeNumber(1)); err != nil {
 					return err
 				}
-				if fate != fateRuns && int(outerDone.Load()) >= c.after[h] {
+				if fate != fateRuns && endNow[h].Load() {
 					logf("helper %d ends (%s)", h, fate)
 					if fate == fateDone {
 						return iface.Goto("H.Done")
@@ -214,8 +216,45 @@ func runGroup(c groupCase) groupResult {
 			go func() { outer.Stop(); close(ch) }()
 		}
 	}
+	// window: between two sections of the outer archetype (it is inside the body of a label that does not touch the
+	// nested resource) the helpers whose turn has come end, and the harness waits until the resource has noticed
+	// (read through the verif hook VerifNestedStopped, so that no request of the harness's own is in flight). Nested contexts therefore never end while the
+	// outer section is between pre-commit and commit, or aborting: there the resource panics by design of its
+	// Commit/Abort (known finding nested-context-ends-during-commit-or-abort; TestC17NestedEndsDuringCommit).
+	window := func(done int) string {
+		any := false
+		for h, f := range c.fates {
+			if f != fateRuns && c.after[h] == done && !endNow[h].Load() {
+				endNow[h].Store(true)
+				any = true
+			}
+		}
+		if !any {
+			return ""
+		}
+		windows++
+		vstat.Known(sigNestedCommitWindow) // counted: an ending steered away from the commit/abort window
+		deadline := time.Now().Add(watchdog)
+		for time.Now().Before(deadline) {
+			if resources.VerifNestedStopped(res) {
+				logf("after outer section %d: the nested resource has noticed that a nested context stopped", done)
+				return ""
+			}
+			time.Sleep(200 * time.Microsecond)
+		}
+		return "INCONCLUSIVE (harness): a helper told to end was not reported as stopped within " + watchdog.String()
+	}
+	infra := ""
 	k := 0
+	first := true
 	sec := distsys.MPCalCriticalSection{Name: "O.loop", Body: func(iface distsys.ArchetypeInterface) error {
+		if first {
+			first = false
+			if m := window(0); m != "" {
+				infra = m
+				return distsys.ErrDone
+			}
+		}
 		// the previous attempt committed if we are here with k advanced by the body; count commits by the value written
 		if k >= c.sections {
 			return iface.Goto("O.Done")
@@ -238,9 +277,10 @@ func runGroup(c groupCase) groupResult {
 		outerDone.Store(int32(k))
 		logf("outer section %d committed", k)
 		maybeStop()
-		// give helpers whose turn has come a moment to end before the next section uses the resource (drawn per case
-		// through the `after` thresholds; the sleep only makes the drawn order likely, the oracle does not depend on it)
-		time.Sleep(3 * time.Millisecond)
+		if m := window(k); m != "" {
+			infra = m
+			return distsys.ErrDone
+		}
 		return iface.Goto("O.loop")
 	}}
 	odone := distsys.MPCalCriticalSection{Name: "O.Done", Body: func(distsys.ArchetypeInterface) error { return distsys.ErrDone }}
@@ -267,6 +307,9 @@ func runGroup(c groupCase) groupResult {
 		return groupResult{fail: "the outer archetype's Run did not return within " + watchdog.String() + " (clean-up of the nested resource blocks)\n" + allStacks(), trace: tr.String()}
 	}
 	logf("Run returned %v", err)
+	if infra != "" {
+		return groupResult{infra: infra}
+	}
 	for i, ch := range stops {
 		select {
 		case <-ch:
